@@ -257,6 +257,19 @@ class C13(Check):
                 raise
             kinds.add(c['call'])
             out.cls('call_' + c['call'])
+            if c['call'] in ('wavefront', 'mtf'):
+                # the result for one (field, wavelength) does not depend on what else is listed in the same call
+                wls_ = o.wavelengths.get_wavelengths()
+                flds_ = o.fields.get_field_coords()
+                w_ = wls_[c['a'] % len(wls_)]
+                fld_ = flds_[c['b'] % len(flds_)]
+                if c['call'] == 'wavefront' and len(wls_) >= 2:
+                    from optiland.wavefront import Wavefront
+                    other = [x for x in wls_ if x != w_][c['b'] % (len(wls_) - 1)]
+                    wf2 = Wavefront(o, fields=[fld_], wavelengths=[other, w_], num_rays=3 + c['a'] % 3, distribution='hexapolar')
+                    out.expect('item_independent_of_the_list', same(flat(wf2.data[0][1]), res), step=step, call=c['call'],
+                               listed=[float(other), float(w_)])
+                    out.cls('wavefront_with_a_leading_other_wavelength')
             # (i) no side effect on the lens
             st_now = lens_state(o)
             if not out.expect('lens_unchanged', st_now == state0, step=step, call=c['call']):
